@@ -168,6 +168,23 @@ func subOf(v ssa.Value) substr {
 			return out
 		}
 	}
+	// before / after of strings.Cut(s, sep): s[:i] and s[i+len(sep):] with i = len(before) (what Index returns
+	// where the separator occurs; where it does not, before is s itself — the rules test that edge apart)
+	if c, k, sep, ok := cutPart(v); ok && k <= 1 {
+		if at := cutLenOf(c); at != nil {
+			in := subOf(c.Call.Args[0])
+			out := substr{base: in.base, lo: in.lo, hi: in.hi}
+			idx := lin{t: map[ssa.Value]int64{at: 1}}
+			if k == 0 {
+				h := in.lo.plus(idx, 1)
+				out.hi = &h
+			} else {
+				out.lo = in.lo.plus(idx, 1)
+				out.lo.k += int64(len(sep))
+			}
+			return out
+		}
+	}
 	return substr{base: v, lo: lin{t: map[ssa.Value]int64{}}}
 }
 
@@ -185,8 +202,59 @@ func vSub(base VM, lo func(lin) bool, hi func(lin) bool) VM {
 	}
 }
 
-// indexSlash: v is strings.Index(h, "/") or strings.IndexByte(h, '/'); returns h.
+// cutPart: v is result k of strings.Cut(s, sep) with a constant sep; returns the call.
+func cutPart(v ssa.Value) (call *ssa.Call, k int, sep string, ok bool) {
+	e, isE := strip(v).(*ssa.Extract)
+	if !isE {
+		return nil, 0, "", false
+	}
+	cl, isC := e.Tuple.(*ssa.Call)
+	if !isC || callName(&cl.Call) != "strings.Cut" || len(cl.Call.Args) != 2 {
+		return nil, 0, "", false
+	}
+	sp, isS := constStr(cl.Call.Args[1])
+	if !isS || sp == "" {
+		return nil, 0, "", false
+	}
+	return cl, e.Index, sp, true
+}
+
+// cutIndexValue: v is len(before) of `before, _, found := strings.Cut(s, sep)`, which on the found edge is
+// what strings.Index(s, sep) returns; the call is returned.
+func cutIndexValue(v ssa.Value) (*ssa.Call, string, bool) {
+	cl := asCall(v)
+	if cl == nil || callName(&cl.Call) != "builtin.len" || len(cl.Call.Args) != 1 {
+		return nil, "", false
+	}
+	c, k, sep, ok := cutPart(cl.Call.Args[0])
+	if !ok || k != 0 {
+		return nil, "", false
+	}
+	return c, sep, true
+}
+
+// cutLenOf finds (one of) the len(before) calls for a Cut call, the value that stands for the index.
+func cutLenOf(c *ssa.Call) ssa.Value {
+	for _, r := range referrers(c) {
+		e, ok := r.(*ssa.Extract)
+		if !ok || e.Index != 0 {
+			continue
+		}
+		for _, rr := range referrers(e) {
+			if cl, ok := rr.(*ssa.Call); ok && callName(&cl.Call) == "builtin.len" {
+				return canonAtom(cl)
+			}
+		}
+	}
+	return nil
+}
+
+// indexSlash: v is strings.Index(h, "/") or strings.IndexByte(h, '/') — or len(before) of
+// strings.Cut(h, "/"), the same number wherever the separator was found; returns h.
 func indexSlash(v ssa.Value) (ssa.Value, bool) {
+	if c, sep, ok := cutIndexValue(v); ok && sep == "/" {
+		return c.Call.Args[0], true
+	}
 	cl := asCall(v)
 	if cl == nil || len(cl.Call.Args) != 2 {
 		return nil, false
@@ -214,6 +282,9 @@ func vIdxSlash(hay VM) VM {
 
 // isSearchResult: v is the result of a strings.Index* call (>= -1).
 func isSearchResult(v ssa.Value) bool {
+	if _, _, ok := cutIndexValue(v); ok {
+		return true
+	}
 	cl := asCall(v)
 	if cl == nil {
 		return false
